@@ -222,7 +222,7 @@ def reader_table(fn, is_file):
             cur = par
         return False
 
-    def slot_of(node):
+    def slot_of(node, key):
         cur = node
         par = cur._parent
         # climb through  x.attr , x[...] , x.attr(...)
@@ -236,10 +236,18 @@ def reader_table(fn, is_file):
             return f"{ast.unparse(par.func)}.{par.args.index(cur)}"
         if isinstance(par, ast.Assign) and par.value is cur and len(par.targets) == 1 and isinstance(par.targets[0], ast.Name):
             return par.targets[0].id
-        if isinstance(par, ast.If) and par.test is cur:
-            return "if"
-        if isinstance(par, ast.IfExp) and par.test is cur:
-            return "if"
+        if isinstance(par, (ast.If, ast.IfExp)) and par.test is cur:
+            # an `if` test: named after the first read of the same key that it guards, e.g. if(keys)
+            body = par.body if isinstance(par, ast.If) else [par.body]
+            inner = []
+            for st in body:
+                for m in ast.walk(st):
+                    if isinstance(m, ast.Subscript) and is_file(m.value) and isinstance(m.slice, ast.Constant) and m.slice.value == key:
+                        inner.append(m)
+            if not inner:
+                return "if"
+            inner.sort(key=lambda m: (m.lineno, m.col_offset))
+            return "if(" + slot_of(inner[0], key) + ")"
         if isinstance(par, ast.IfExp) and par.body is cur:
             gp = par._parent
             if isinstance(gp, ast.Assign) and len(gp.targets) == 1 and isinstance(gp.targets[0], ast.Name):
@@ -253,7 +261,7 @@ def reader_table(fn, is_file):
             if not isinstance(n.ctx, ast.Load):
                 raise Bad(f"{fn.name}: store into the file (line {n.lineno})")
             if isinstance(n.slice, ast.Constant) and isinstance(n.slice.value, str):
-                entries.append((slot_of(n), "get", n.slice.value, guarded(n, n.slice.value)))
+                entries.append((slot_of(n, n.slice.value), "get", n.slice.value, guarded(n, n.slice.value)))
             else:
                 # only the kwargs comprehension  {key: file[key] for key in file.keys() if key not in [...]}
                 par = n._parent
@@ -289,7 +297,7 @@ def reader_table(fn, is_file):
         elif isinstance(n, ast.Compare):
             k = membership(n)
             if k is not None:
-                entries.append((slot_of(n), "in", k, False))
+                entries.append((slot_of(n, k), "in", k, False))
         elif isinstance(n, ast.Call) and isinstance(n.func, ast.Attribute) and is_file(n.func.value) and n.func.attr not in ("keys",):
             raise Bad(f"{fn.name}: unsupported method on the file: {n.func.attr} (line {n.lineno})")
     return entries, excluded
